@@ -12,6 +12,10 @@ use std::sync::Arc;
 
 fn main() {
     let argv: Vec<String> = std::env::args().collect();
+    if argv.len() == 3 && argv[1] == "--sqrt-scan" {
+        hard::sqrt_scan(argv[2].parse().unwrap());
+        return;
+    }
     if argv.len() == 3 && argv[1] == "--sqrt-hard" {
         hard::sqrt_hard(argv[2].parse().unwrap());
         return;
